@@ -198,6 +198,9 @@ def main(p):
             cm = ent.get('clientMethod', {})
             cname = cm.get('client', {}).get('shortName')
             C = getattr(lib.pkg, cname, None) if cname else None
+            mname = cm.get('shortName')
+            if C is not None and mname and cm.get('fullName') != f'{a["package"]}.{cname}.{mname}':
+                fail(cell, variant, 'metadata-method-fullname', f'{cm.get("fullName")!r} expected {a["package"]}.{cname}.{mname}')
             if C is None or cm.get('client', {}).get('fullName') != f'{a["package"]}.{cname}':
                 fail(cell, variant, 'metadata-client', cm.get('client'))
             else:
